@@ -23,8 +23,8 @@ PLANS["C01"] = {
     "assumptions": ["the f64 reference model in harness/src/refmodel.rs states the ideal filter of the property",
                     "NEON/WASM kernels are not executable on this host"],
     "quick": [step("rel", "firv-core", 300000), step("asan", "firv-core", 30000), step("dbg", "firv-core", 30000)],
-    "thorough": [step("rel", "firv-core", 1000000, timeout=7200), step("asan", "firv-core", 60000, timeout=7200),
-                 step("dbg", "firv-core", 60000, timeout=7200)],
+    "thorough": [step("rel", "firv-core", 6000000, timeout=7200), step("asan", "firv-core", 300000, timeout=7200),
+                 step("dbg", "firv-core", 300000, timeout=7200)],
 }
 FLOORS["C01"] = {
     "quick": [
@@ -47,8 +47,8 @@ PLANS["C02"] = {
             "non-trivial = at least one convolution pass ran (resize) / any row (muldiv); distinct = distinct descriptor",
     "assumptions": CONV_ASSUME,
     "quick": [step("rel", "firv-core", 160000), step("rel", "firv-core", 60000, sub="muldiv")],
-    "thorough": [step("rel", "firv-core", 3000000, timeout=7200), step("rel", "firv-core", 1000000, sub="muldiv", timeout=7200),
-                 step("asan", "firv-core", 100000, timeout=7200)],
+    "thorough": [step("rel", "firv-core", 10000000, timeout=7200), step("rel", "firv-core", 4000000, sub="muldiv", timeout=7200),
+                 step("asan", "firv-core", 400000, timeout=7200)],
 }
 
 
@@ -77,7 +77,7 @@ PLANS["C07"] = {
             "non-transparent pixels; geometries where dst size == integer crop (C12: exact copy) are excluded and counted",
     "assumptions": CONV_ASSUME + ["colours under zero alpha are finite (NaN*0 is NaN in any implementation)"],
     "quick": [step("rel", "firv-core", 120000)],
-    "thorough": [step("rel", "firv-core", 3000000, timeout=7200), step("asan", "firv-core", 100000, timeout=7200)],
+    "thorough": [step("rel", "firv-core", 15000000, timeout=7200), step("asan", "firv-core", 400000, timeout=7200)],
 }
 FLOORS["C07"] = {"quick": [
     (">= 10000 cases with partial transparency, >= 1000 opaque cases, >= 10^5 zero-alpha destination pixels, >= 10^5 composition checks",
@@ -92,7 +92,7 @@ PLANS["C10"] = {
             "non-trivial = kernel of >= 2 taps inside the verdict domain",
     "assumptions": CONV_ASSUME,
     "quick": [step("rel", "firv-core", 160000)],
-    "thorough": [step("rel", "firv-core", 4000000, timeout=7200)],
+    "thorough": [step("rel", "firv-core", 20000000, timeout=7200), step("asan", "firv-core", 400000, timeout=7200)],
 }
 FLOORS["C10"] = {"quick": [
     ("all 256 8-bit values used", lambda o: len(o["sets"]["u8_values"]) == 256),
@@ -130,7 +130,7 @@ PLANS["C12"] = {
             "every case is non-trivial; distinct = distinct descriptor",
     "assumptions": CONV_ASSUME,
     "quick": [step("rel", "firv-core", 120000)],
-    "thorough": [step("rel", "firv-core", 3000000, timeout=7200)],
+    "thorough": [step("rel", "firv-core", 30000000, timeout=7200), step("asan", "firv-core", 400000, timeout=7200)],
 }
 FLOORS["C12"] = {"quick": [
     (">= 10000 cases of each of the four modes", lambda o: all(o["counters"][k] >= 10000 for k in ("same_size", "rows_match", "columns_match", "supersampling_identity"))),
@@ -145,7 +145,7 @@ PLANS["C18"] = {
             "non-trivial = kernel of >= 2 taps",
     "assumptions": CONV_ASSUME,
     "quick": [step("rel", "firv-core", 120000)],
-    "thorough": [step("rel", "firv-core", 3000000, timeout=7200)],
+    "thorough": [step("rel", "firv-core", 15000000, timeout=7200), step("asan", "firv-core", 400000, timeout=7200)],
 }
 FLOORS["C18"] = {"quick": [
     (">= 10^8 components checked, kernels up to >= 4096 taps", lambda o: o["counters"]["components_checked"] >= 10 ** 8 and o["maxima"]["kernel_len_max"] >= 4096),
@@ -223,8 +223,8 @@ PLANS["C04"] = {
               step("rel", "firv-views", 200000, sub="buffers"), step("dbg", "firv-views", 100000, sub="buffers")],
     "thorough": [step("rel", "firv-views", 0, sub="quads"), step("dbg", "firv-views", 0, sub="quads"),
                  step("rel", "firv-views", 0, sub="boundary", shards=4), step("dbg", "firv-views", 0, sub="boundary", shards=4),
-                 step("rel", "firv-views", 8000000, sub="f64crop", timeout=7200), step("dbg", "firv-views", 1000000, sub="f64crop", timeout=7200),
-                 step("rel", "firv-views", 8000000, sub="buffers", timeout=7200), step("dbg", "firv-views", 2000000, sub="buffers", timeout=7200)],
+                 step("rel", "firv-views", 24000000, sub="f64crop", timeout=7200), step("dbg", "firv-views", 3000000, sub="f64crop", timeout=7200),
+                 step("rel", "firv-views", 24000000, sub="buffers", timeout=7200), step("dbg", "firv-views", 6000000, sub="buffers", timeout=7200)],
 }
 FLOORS["C04"] = {"quick": [
     (">= 10^6 constructor calls with both outcomes", lambda o: o["counters"]["constructor_calls"] >= 10 ** 6 and o["counters"]["accepted"] >= 10 ** 4 and o["counters"]["rejected"] >= 10 ** 4),
@@ -243,8 +243,8 @@ PLANS["C05"] = {
             "rayon pools of 1, 2, 3, 8 threads; non-trivial = every call; distinct = distinct descriptor",
     "assumptions": VIEW_ASSUME,
     "quick": [step("rel", "firv-views", 160000), step("asan", "firv-views", 32000), step("rel+rayon", "firv-views", 48000, sub="threads")],
-    "thorough": [step("rel", "firv-views", 4000000, timeout=7200), step("asan", "firv-views", 800000, timeout=7200),
-                 step("rel+rayon", "firv-views", 1000000, sub="threads", timeout=7200)],
+    "thorough": [step("rel", "firv-views", 8000000, timeout=7200), step("asan", "firv-views", 1600000, timeout=7200),
+                 step("rel+rayon", "firv-views", 2000000, sub="threads", timeout=7200)],
 }
 FLOORS["C05"] = {"quick": [
     (">= 10^7 destination pixels checked, >= 1000 erroring calls, >= 1000 zero-sized calls",
@@ -262,7 +262,7 @@ PLANS["C13"] = {
             "against the plain pair in a 1-thread pool; non-trivial = every case; distinct = distinct descriptor",
     "assumptions": VIEW_ASSUME,
     "quick": [step("rel", "firv-views", 160000), step("asan", "firv-views", 32000), step("rel+rayon", "firv-views", 48000, sub="threads")],
-    "thorough": [step("rel", "firv-views", 4000000, timeout=7200), step("asan", "firv-views", 800000, timeout=7200), step("rel+rayon", "firv-views", 1000000, sub="threads", timeout=7200)],
+    "thorough": [step("rel", "firv-views", 16000000, timeout=7200), step("asan", "firv-views", 3000000, timeout=7200), step("rel+rayon", "firv-views", 4000000, sub="threads", timeout=7200)],
 }
 FLOORS["C13"] = {"quick": [
     ("every compiled container pair and >= 20 alpha paths used", lambda o: len(o["sets"]["container_pairs"]) >= 19 and len(o["sets"]["alpha_paths"]) >= 20),
@@ -271,7 +271,7 @@ FLOORS["C13"]["thorough"] = FLOORS["C13"]["quick"]
 
 PLANS["C14"] = {
     "rule": "exhaustive: 7 view kinds (owned, slice over an oversized buffer, reference, cropped, nested-cropped, mutable cropped, nested "
-            "mutable) x all view sizes 0..=N x 0..=N (N=12 quick, 28 thorough) x placements x both axes x every (start, size, parts) with "
+            "mutable) x all view sizes 0..=N x 0..=N (N=12 quick, 34 thorough) x placements x both axes x every (start, size, parts) with "
             "start 0..=extent+1, size 1..=extent+1, parts 1..=size+1, plus values near u32::MAX and split-of-split; parts are read through "
             "ImageView (identity tags) and, for mutable views, written ((index+1)<<20 added) and read back through the parent: every band "
             "pixel incremented exactly once by the right part, nothing else changed; the extents of the parts must be floor or ceil of "
@@ -337,7 +337,7 @@ FLOORS["C09"] = {"quick": [
 FLOORS["C09"]["thorough"] = FLOORS["C09"]["quick"]
 
 PLANS["C15"] = {
-    "rule": "exhaustive: all (src w, src h, dst w, dst h) in 1..=24 with 4 centerings; random: 10^7 (quick) / 10^9 (thorough) quadruples "
+    "rule": "exhaustive: all (src w, src h, dst w, dst h) in 1..=24 with 4 centerings; random: 10^7 (quick) / 2*10^10 (thorough) quadruples "
             "in 1..=65 535 biased to near-equal ratios (dst = k*src +- 1), centerings incl. 0, 0.5, 1, -3, 7, +-inf, 1-eps; the returned box "
             "must be inside the source as the validator judges it, have the destination aspect to 1e-12, span one dimension, and sit at the "
             "clamped centering of the margin; resize: fit_into_destination through Resizer::resize on identity-tagged images never errors and "
@@ -350,7 +350,7 @@ PLANS["C15"] = {
               step("rel", "firv-misc", 10000000, sub="random"), step("dbg", "firv-misc", 1000000, sub="random"),
               step("rel", "firv-misc", 40000, sub="resize")],
     "thorough": [step("rel", "firv-misc", 0, sub="exhaustive"), step("dbg", "firv-misc", 0, sub="exhaustive"),
-                 step("rel", "firv-misc", 1000000000, sub="random", timeout=7200), step("dbg", "firv-misc", 100000000, sub="random", timeout=7200),
+                 step("rel", "firv-misc", 20000000000, sub="random", timeout=7200), step("dbg", "firv-misc", 1000000000, sub="random", timeout=7200),
                  step("rel", "firv-misc", 2000000, sub="resize", timeout=7200)],
 }
 FLOORS["C15"] = {"quick": [
@@ -373,7 +373,7 @@ PLANS["C16"] = {
 }
 FLOORS["C16"] = {"quick": [
     (">= 5*10^7 components checked, 256 round-trip values, every alpha row position for widths 1..9",
-     lambda o: o["counters"]["components_checked"] >= 5 * 10 ** 7 and o["counters"]["roundtrip_values_checked"] == 256 and len(o["sets"]["alpha_row_positions"]) == 45),
+     lambda o: o["counters"]["components_checked"] >= 5 * 10 ** 7 and o["counters"]["roundtrip_values_checked"] >= 256 and len(o["sets"]["alpha_row_positions"]) == 45),
 ]}
 FLOORS["C16"]["thorough"] = FLOORS["C16"]["quick"]
 
@@ -386,7 +386,7 @@ PLANS["C17"] = {
     "assumptions": ["nominal ranges: U8 [0,255], U16 [0,65535], F32 [0,1] against unsigned and [-1,1] against I32, I32 [0,MAX] against unsigned and [MIN,MAX] against F32"],
     "exhaustive": {"quick": False, "thorough": False},
     "quick": [step("rel", "firv-misc", 34, sub="values"), step("dbg", "firv-misc", 8, sub="values"), step("rel", "firv-misc", 0, sub="errors", shards=2)],
-    "thorough": [step("rel", "firv-misc", 3400, sub="values", timeout=7200), step("dbg", "firv-misc", 340, sub="values", timeout=7200), step("rel", "firv-misc", 0, sub="errors", shards=2)],
+    "thorough": [step("rel", "firv-misc", 20000, sub="values", timeout=7200), step("dbg", "firv-misc", 2000, sub="values", timeout=7200), step("rel", "firv-misc", 0, sub="errors", shards=2)],
 }
 FLOORS["C17"] = {"quick": [
     (">= 10^7 values converted, >= 10^6 round trips", lambda o: o["counters"]["values_converted"] >= 10 ** 7 and o["counters"]["round_trips"] >= 10 ** 6),
